@@ -77,12 +77,12 @@ class StnHist(Engine):
     def profiles(self, tier):
         return ["mixed", "cycles", "copies", "cascade"]
 
-    def generate_cascade(self, seed):
+    def generate_cascade(self, seed, tier="quick"):
         """Layered precedence network over 8-14 events inserted sink side first, so that each insertion near the
         sources shifts a large part of the network and the propagation queue holds the same event several times
         (the same successor is improved first over a short path, then over a longer one)."""
         r = stream(seed, "cascade")
-        nev = r.randint(8, 14)
+        nev = r.randint(8, 14) if tier != "thorough" or r.random() < 0.6 else r.randint(15, 24)
         events = [f"e{i}" for i in range(nev)]
         p = r.choice([0.35, 0.5, 0.7, 0.9])
         edges = []
@@ -125,7 +125,7 @@ class StnHist(Engine):
 
     def generate(self, seed, profile, tier):
         if profile == "cascade":
-            return self.generate_cascade(seed)
+            return self.generate_cascade(seed, tier)
         r = stream(seed, "ops")
         nev = r.randint(2, 5)
         events = [f"e{i}" for i in range(nev)]
@@ -138,7 +138,7 @@ class StnHist(Engine):
                 return str(Fraction(r.randint(-9, 15), r.choice([2, 3])))
             return r.randint(-4, 6)
 
-        nops = r.randint(5, 40)
+        nops = r.randint(5, 40) * (stream(seed, "size").choice([1, 1, 1, 2, 3]) if tier == "thorough" else 1)
         for i in range(nops):
             x = r.random()
             n = r.choice(nets[-2:]) if r.random() < 0.6 else r.choice(nets)
